@@ -27,6 +27,7 @@ var c20fields = []c20field{
 	{"time", "", 0, true}, {"time AS t", "t", 0, true},
 	{"top(x, 2)", "", 0, false}, {"top(x, y, 2)", "", 1, false}, {"top(x, y, x_1, 2)", "", 2, false}, {"bottom(x, y, 2)", "", 1, false},
 	{"top(x, y, 2) AS x", "x", 1, false}, {"mean(x) AS mean_1", "mean_1", 0, false}, {"x AS x_2", "x_2", 0, false},
+	{"(top(x, y, 2))", "", 0, false}, {"(x + y) * x_1", "", 0, false},
 }
 
 var c20core = []int{0, 1, 2, 3, 4, 5, 6, 7, 15, 16, 18, 22}
@@ -34,7 +35,7 @@ var c20core = []int{0, 1, 2, 3, 4, 5, 6, 7, 15, 16, 18, 22}
 type c20Case struct {
 	Fields []int `json:"fields"`
 	Into   bool  `json:"into"`
-	Mode   int   `json:"mode"` // 0 raw, 1 after RewriteTimeFields, 2 OmitTime
+	Mode   int   `json:"mode"` // 0 raw, 1 after RewriteTimeFields, 2 OmitTime, 3 named once, then every reference renamed in place
 }
 
 func (c c20Case) text() string {
@@ -65,6 +66,13 @@ func c20eval(c c20Case) []ev.Finding {
 			sel.RewriteTimeFields()
 		case 2:
 			sel.OmitTime = true
+		case 3:
+			_ = sel.ColumnNames()
+			influxql.WalkFunc(sel.Fields, func(n influxql.Node) {
+				if v, ok := n.(*influxql.VarRef); ok && v.Val != "time" {
+					v.Val = "r" + v.Val
+				}
+			})
 		}
 		before = astx.Dump(astx.Full, sel)
 		cols = sel.ColumnNames()
@@ -74,6 +82,15 @@ func c20eval(c c20Case) []ev.Finding {
 		return []ev.Finding{{Sig: "panic:" + ev.SigSafe(fmt.Sprint(p)), Witness: wit, Detail: fmt.Sprint(p) + "\n" + st, Case: c}}
 	}
 	var out []ev.Finding
+	if c.Mode == 3 {
+		// a pure function of the statement: the statement as it is now, printed and parsed afresh, must name its columns the same
+		if fresh, err := influxql.ParseStatement(sel.String()); err == nil {
+			want := fresh.(*influxql.SelectStatement).ColumnNames()
+			if strings.Join(want, "\x00") != strings.Join(cols, "\x00") {
+				out = append(out, ev.Finding{Sig: "stale-after-in-place-rename", Witness: wit, Detail: fmt.Sprintf("after renaming, ColumnNames = %q but a fresh parse of %q gives %q", cols, sel.String(), want), Case: c, Rank: len(c.Fields)})
+			}
+		}
+	}
 	rep := func(sig, detail string) {
 		out = append(out, ev.Finding{Sig: sig, Witness: wit, Detail: fmt.Sprintf("%s; ColumnNames = %q", detail, cols), Case: c, Rank: len(c.Fields)})
 	}
@@ -204,7 +221,7 @@ func c20run(r *ev.Run) {
 				x /= len(alpha)
 			}
 			for _, into := range []bool{false, true} {
-				for mode := 0; mode < 3; mode++ {
+				for mode := 0; mode < 4; mode++ {
 					run(c20Case{Fields: fs, Into: into, Mode: mode})
 				}
 			}
